@@ -397,6 +397,10 @@ func (v JSONVerifierSelf) VerifyJSONs(ctx context.Context, requests []VerifyJSON
 			results[i].Error = fmt.Errorf("unable to get key from senderID for %s: %w", requests[i].ServerName, err)
 			continue
 		}
+		if len(key) != ed25519.PublicKeySize {
+			results[i].Error = fmt.Errorf("senderID %s is not an ed25519 public key", requests[i].ServerName)
+			continue
+		}
 
 		// verify the JSON is valid
 		if err = VerifyJSON(string(requests[i].ServerName), "ed25519:1", ed25519.PublicKey(key), requests[i].Message); err != nil {
